@@ -192,7 +192,7 @@ def check_site(prog, rep, entry, site, np_funcs, kind, np_path=None):
         if len(elts) != 2:
             rep.add('H1', f, entry, text, site.call.lineno, None, 'depth is not a pair')
             return
-        depth_vals = eval_in_scope(prog, f, elts)
+        depth_vals = eval_in_scope(prog, f, elts, pair=not isinstance(d, (ast.Tuple, ast.List, ast.Dict)))
         fp = footprint_of(prog, kern, npos, bound=tuple(pb or ()))
         if fp is None:
             rep.add('H1', f, entry, text, site.call.lineno, None, 'footprint of %s not derivable' % kern.qualname)
@@ -341,8 +341,16 @@ def lazy_taint(prog, f, dask_only=True, module_param=None):
             if isinstance(p, ast.If) and module_param:
                 tn = p.test
                 inbody = child in p.body
-                while isinstance(tn, ast.UnaryOp) and isinstance(tn.op, ast.Not):
-                    tn, inbody = tn.operand, not inbody       # `if not module == da: A else: B` reads as `if module == da: B else: A`
+                for _ in range(4):
+                    while isinstance(tn, ast.UnaryOp) and isinstance(tn.op, ast.Not):
+                        tn, inbody = tn.operand, not inbody       # `if not module == da: A else: B` reads as `if module == da: B else: A`
+                    if isinstance(tn, ast.Name):
+                        # the test held in a local (`is_dask = module == da`), assigned once
+                        vs_ = [v_ for v_ in f.local_assigns().get(tn.id, []) if isinstance(v_, ast.AST)]
+                        if len(vs_) == 1 and len(f.local_assigns().get(tn.id, [])) == 1 and isinstance(vs_[0], (ast.Compare, ast.UnaryOp)):
+                            tn = vs_[0]
+                            continue
+                    break
                 if isinstance(tn, ast.Compare) and len(tn.ops) == 1 and isinstance(tn.ops[0], (ast.Eq, ast.NotEq, ast.Is, ast.IsNot)) and \
                         norm(tn.comparators[0]) == module_param and norm(tn.left) != module_param:
                     tn = ast.Compare(left=tn.comparators[0], ops=tn.ops, comparators=[tn.left])      # `da == module`
@@ -642,6 +650,22 @@ def dtype_provenance(prog, f, lazy=False):
                 return 'FLOAT'     # package helpers (_perlin, _gen_terrain, map_blocks results) produce floats
             if nm in ('map_blocks', 'linspace', 'meshgrid', 'sqrt', 'sin', 'cos'):
                 return 'FLOAT'
+            if nm in ('where', 'maximum', 'minimum', 'clip', 'abs', 'absolute', 'nan_to_num') and isinstance(t, Ext) and \
+                    t.dotted.startswith(('numpy.', 'dask.array.')):
+                # element-wise selections: the result type is the promotion of the value operands (a Python int promotes
+                # nothing, a Python float makes the result floating)
+                vals = e.args[1:] if nm == 'where' else e.args
+                ps = []
+                for a in vals:
+                    if isinstance(a, ast.Constant) and isinstance(a.value, (int, float)) and not isinstance(a.value, bool):
+                        ps.append('FLOAT' if isinstance(a.value, float) else 'NEUTRAL')
+                    else:
+                        ps.append(prov(a))
+                if 'FLOAT' in ps:
+                    return 'FLOAT'
+                if None in ps or not [x for x in ps if x != 'NEUTRAL']:
+                    return None
+                return 'IN'
             return None
         if isinstance(e, ast.BinOp):
             a, b = prov(e.left), prov(e.right)
